@@ -804,149 +804,204 @@ def _loads(e: Node) -> List[Tuple[int, str]]:
 
 @rule("EC1", "C bit copier: on every path and every (si, di): 1 <= c <= n, word loads/stores stay inside the field's bytes, partial stores are masked to c bits")
 def ec1(repo: Repo) -> RuleResult:
-    from .golower import GoLower
-    from .normal import C as K, Poly, V, show
+    """The loop body of BpCopyBufferBits is summarised by the path engine
+    (helpers such as BpMin inlined, locals substituted).  Roles come from the
+    summary itself: the chunk is what the remaining count decreases by, the
+    bit indexes must advance by the same amount, the pointers by whole bytes.
+    Every path is then specialised to the 64 residue pairs (si, di) and the
+    obligations are discharged by interval reasoning over the remaining n."""
+    from .flows import c_runtime
+    from .fold import replace_atoms
+    from .normal import C as K, Poly, V, pow2, show
     from .numeric import Facts, prove_ge, prove_le
+    from .pyflow import single_atom
+    from .rules_d import _and_parts
 
     res = RuleResult("EC1", floor=300)
     for vname, be in VARIANTS:
+        part = f"c-{vname}"
         try:
-            c = get_c(repo, be)
+            L = c_runtime(repo, be)
+            fn = L.func("BpCopyBufferBits")
+            params = [a.arg for a in fn.args.args]
+            if len(params) != 5:
+                raise Inconclusive(f"BpCopyBufferBits has parameters {params}")
+            pn, pdst, psrc, pdi, psi = params
+            top = L.flow(None, names={}, havoc_on=()).run(fn)
         except Inconclusive as e:
             res.unsure(f"EC1[{vname}]: {e}")
             continue
-        f = c.func("BpCopyBufferBits")
-        part = f"c-{vname}"
-        loops = [s for s in f.body.stmts if s.k == "for"]
-        if len(loops) != 1 or len(f.body.stmts) != 1 or txt(loops[0].cond) != "n":
-            res.unsure(f"EC1[{vname}]: BpCopyBufferBits is not a single `while (n)` loop (shape gate)")
+        loops = [e for p_ in top for e in p_.effects if e.kind == "loop"]
+        if len({id(e.node) for e in loops}) != 1:
+            res.unsure(f"EC1[{vname}]: BpCopyBufferBits is not a single loop over the remaining count (shape gate)")
             continue
-        body = loops[0].body.stmts
-        pre = [f"{go_src(s.lhs[0])} {s.op} {txt(s.rhs[0])}" for s in body[:4] if s.k == "assign"]
-        if sorted(pre) != sorted(["dst += di>>3", "src += si>>3", "di &= 7", "si &= 7"]):
-            res.unsure(f"EC1[{vname}]: loop preamble (advance pointers by index >> 3, reduce indexes & 7) not recognised: {pre}")
-            continue
-        epi = [f"{go_src(s.lhs[0])} {s.op} {txt(s.rhs[0])}" for s in body[-3:] if s.k == "assign"]
-        if sorted(epi) != sorted(["n -= c", "di += c", "si += c"]):
-            fd = Finding("EC1", C_RT, loops[0].line, "BpCopyBufferBits", str(epi), "the loop does not end with n -= c; di += c; si += c (remaining count and both bit indexes advance by the chunk)", witness="any field wider than one chunk", tag=f"{vname}:epilogue")
-            fd.part = part
-            res.bad(fd)
-            continue
-        middle = body[4:-3]
-        paths = enumerate_paths(middle, CPath())
-        res.note(f"{vname}: {len(paths)} paths through the loop body: " + " | ".join(" & ".join(p.label) for p in paths))
-        if not (3 <= len(paths) <= 16):
+        lp = loops[0]
+        tag = lp.op
+        n0, di0, si0, dst0, src0 = (V(x + tag) for x in (pn, pdi, psi, pdst, psrc))
+        test = getattr(lp.node, "test", None)
+        paths = [sp for sp in (lp.sub or []) if sp.done is None]
+        res.note(f"{vname}: {len(paths)} paths through the loop body")
+        if not (3 <= len(paths) <= 64):
             res.unsure(f"EC1[{vname}]: {len(paths)} paths (shape gate)")
             continue
-        lw = GoLower(c.funcs)
         n = V("n")
         for pi, p in enumerate(paths):
-            label = " & ".join(p.label) or "<always>"
-            env: Dict[str, Poly] = {}
-            # lower environment in assignment order (bits, c, ch ...)
-            for name, node in p.env.items():
-                if name in ("copied",):
-                    continue
-                env[name] = lw.expr(node, env)
-            cexpr = env.get("c")
-            if cexpr is None:
-                res.unsure(f"EC1[{vname}]: path `{label}` assigns no chunk size")
+            label = " & ".join(g for g in p.guard_text() if "[0]" not in g).replace(tag, "") or "<always>"
+            n_end, di_end, si_end, dst_end, src_end = (p.env.get(x) for x in (pn, pdi, psi, pdst, psrc))
+            if None in (n_end, di_end, si_end, dst_end, src_end):
+                res.unsure(f"EC1[{vname}]: path `{label}`: a loop variable has no value at the end of the body")
+                continue
+            stores = [e for e in p.effects if e.kind == "store"]
+            others = [e for e in p.effects if e.kind in ("call", "loop", "other")]
+            if others:
+                res.unsure(f"EC1[{vname}]: path `{label}`: `{others[0]!r}` in the loop body is outside the enumerated forms")
                 continue
             feasible_pairs = 0
             for si in range(8):
                 for di in range(8):
-                    sub = lambda q: q.subst("si", K(si)).subst("di", K(di))
+                    def repl(a: Any, si: int = si, di: int = di) -> Optional[Poly]:
+                        if a[0] == "mod8" and a[1] == si0:
+                            return K(si)
+                        if a[0] == "mod8" and a[1] == di0:
+                            return K(di)
+                        if a[0] == "var" and a[1] == pn + tag:
+                            return n
+                        return None
+
+                    sub = lambda q: replace_atoms(q, repl)
                     lo, hi = 1.0, float("inf")
                     feasible = True
-                    for g, pol in p.guards:
-                        gg = g
-                        while gg.k == "paren":
-                            gg = gg.x
-                        if gg.k == "bin" and gg.op in ("==", ">=", "<", ">", "<=", "!="):
-                            l = sub(lw.expr(gg.l, env))
-                            r = sub(lw.expr(gg.r, env))
-                            d = l - r  # l op r  <=>  d op 0
+                    for k, truth in p.guards:
+                        if k[0] == "cmp":
+                            d = sub(k[2])
+                            op = k[1]
                             cv = d.const_value()
-                            op = gg.op
-                            if not pol:
-                                op = {"==": "!=", "!=": "==", ">=": "<", "<": ">=", ">": "<=", "<=": ">"}[op]
                             if cv is not None:
-                                ok = {"==": cv == 0, "!=": cv != 0, ">=": cv >= 0, "<": cv < 0, ">": cv > 0, "<=": cv <= 0}[op]
-                                if not ok:
+                                ok = {"<": cv < 0, "<=": cv <= 0, "==": cv == 0}[op]
+                                if ok != truth:
                                     feasible = False
+                                continue
+                            # d = s*n + b
+                            for s_ in (1, -1):
+                                b = (d - n.scale(s_)).const_value()
+                                if b is not None:
+                                    break
                             else:
-                                # linear in n with coefficient +1:  n + b op 0
-                                b = (d - n).const_value()
-                                if b is None:
-                                    res.unsure(f"EC1[{vname}]: guard `{go_src(g)}` is not linear in n")
+                                res.unsure(f"EC1[{vname}]: guard `{show(k[2])} {op} 0` is not linear in the remaining count")
+                                feasible = False
+                                continue
+                            # s*n + b op 0
+                            rel = op if truth else {"<": ">=", "<=": ">", "==": "!="}[op]
+                            if s_ == -1:
+                                rel = {"<": ">", "<=": ">=", ">=": "<=", ">": "<", "==": "==", "!=": "!="}[rel]
+                                b = -b
+                            # n + b rel 0   (after dividing by s)
+                            if rel == "<":
+                                hi = min(hi, -b - 1)
+                            elif rel == "<=":
+                                hi = min(hi, -b)
+                            elif rel == ">=":
+                                lo = max(lo, -b)
+                            elif rel == ">":
+                                lo = max(lo, -b + 1)
+                            elif rel == "==":
+                                lo, hi = max(lo, -b), min(hi, -b)
+                        elif k[0] == "truthy":
+                            tv = sub(k[1])
+                            if tv == n:
+                                if not truth:
                                     feasible = False
-                                    continue
-                                if op == ">=":
-                                    lo = max(lo, -b)
-                                elif op == ">":
-                                    lo = max(lo, -b + 1)
-                                elif op == "<":
-                                    hi = min(hi, -b - 1)
-                                elif op == "<=":
-                                    hi = min(hi, -b)
-                        elif gg.k == "id" and gg.name == "ch":
-                            pass  # data dependent: both sides considered
-                        elif gg.k == "id" or (gg.k == "un" and gg.op == "!"):
-                            pass
-                        else:
-                            res.unsure(f"EC1[{vname}]: guard `{go_src(g)}` not understood")
+                            elif tv.const_value() is not None:
+                                if bool(tv.const_value()) != truth:
+                                    feasible = False
+                            # anything else is data dependent: both sides considered
                     if not feasible or lo > hi:
                         continue
                     feasible_pairs += 1
                     facts = Facts()
                     facts.assume(n, lo, hi, "path guards")
-                    cc = sub(cexpr)
-                    checks = [("c >= 1", prove_ge(cc, K(1), facts), "the loop does not make progress (hang)"), ("c <= n", prove_le(cc, n, facts), "more bits than remain are copied: the following field / padding is overwritten, n goes negative (endless loop)")]
-                    for tgt, op, val, sg in p.stores:
-                        if tgt.k != "index":
+                    cc = sub(n0 - n_end)
+                    checks: List[Tuple[str, Tuple[Any, str], str]] = [
+                        ("c >= 1", prove_ge(cc, K(1), facts), "the loop does not make progress (hang)"),
+                        ("c <= n", prove_le(cc, n, facts), "more bits than remain are copied: the following field / padding is overwritten, n goes negative (endless loop)"),
+                        ("di advances by c", (sub(di_end) == K(di) + cc, f"di -> {show(sub(di_end))}, c = {show(cc)}"), "the destination bit index goes out of step with the remaining count"),
+                        ("si advances by c", (sub(si_end) == K(si) + cc, f"si -> {show(sub(si_end))}, c = {show(cc)}"), "the source bit index goes out of step with the remaining count"),
+                        ("pointers advance by whole bytes", (dst_end == dst0 + Poly.atom(("div8", di0)) and src_end == src0 + Poly.atom(("div8", si0)), f"dst -> {show(dst_end)}, src -> {show(src_end)}"), "bytes are skipped or copied twice"),
+                    ]
+                    for e in stores:
+                        base = e.recv
+                        w = 1
+                        ba = single_atom(base) if base is not None else None
+                        if ba is not None and ba[0] == "ptr":
+                            from .node2py import PTR_WIDTH
+
+                            w = PTR_WIDTH.get(ba[1], 0)
+                            base = ba[2]
+                        idx, val = e.args[0], e.args[1]
+                        if w == 0 or base is None:
+                            res.unsure(f"EC1[{vname}]: store `{e!r}` has an unknown width")
                             continue
-                        w, base = _store_width(tgt)
-                        if w == 0:
-                            res.unsure(f"EC1[{vname}]: store target `{go_src(tgt)}` has an unknown width")
+                        if base != dst_end or idx != K(0):
+                            checks.append(("stores go to the current destination byte", (False, f"{show(base)}[{show(idx)}]"), "a byte other than the one the bit index points at is written"))
                             continue
+                        loads = []
+                        for a in _deep_atoms(val):
+                            if a[0] == "load":
+                                lb = a[1] if isinstance(a[1], Poly) else None
+                                la = single_atom(lb) if lb is not None else None
+                                lw_ = 1
+                                if la is not None and la[0] == "ptr":
+                                    from .node2py import PTR_WIDTH
+
+                                    lw_ = PTR_WIDTH.get(la[1], 0)
+                                loads.append(lw_)
                         if w > 1:
                             checks.append((f"{w}-byte store at dst only when di == 0", (di == 0, f"di = {di}"), "a word store at a non-zero bit offset clobbers the bits below it"))
                             checks.append((f"{w}-byte store needs n > {8 * (w - 1)}", prove_ge(n, K(8 * (w - 1) + 1), facts), f"the store writes {w} bytes but the remaining bits occupy fewer: bytes after the field (or the message buffer) are overwritten"))
-                            for lwid, lbase in _loads(val):
-                                if lwid > 1:
-                                    checks.append((f"{lwid}-byte load needs si + n > {8 * (lwid - 1)}", prove_ge(n + K(si), K(8 * (lwid - 1) + 1), facts), f"the load reads {lwid} bytes but the source bits end earlier: out-of-bounds read"))
+                            for lw_ in loads:
+                                if lw_ > 1:
+                                    checks.append((f"{lw_}-byte load needs si + n > {8 * (lw_ - 1)}", prove_ge(n + K(si), K(8 * (lw_ - 1) + 1), facts), f"the load reads {lw_} bytes but the source bits end earlier: out-of-bounds read"))
                             checks.append((f"word path copies 8*{w} - si bits", (cc == K(8 * w - si), f"c = {show(cc)}"), "the chunk size does not match what the store carried"))
-                        elif op == "=":
+                        elif e.op == "=":
                             checks.append(("plain byte store only when di == 0", (di == 0, f"di = {di}"), "a plain store at a non-zero bit offset clobbers the bits below it"))
                             checks.append(("whole-byte path copies 8 - si bits", (cc == K(8 - si), f"c = {show(cc)}"), "the chunk size does not match what the store carried"))
+                        elif e.op == "|=":
+                            v = sub(val)
+                            parts2 = _and_parts(v)
+                            want_mask = -(K(255) * pow2(K(di) + cc)) - K(1)
+                            okm = parts2 is not None and any(x == want_mask for x in parts2)
+                            checks.append(("partial store masked with ~(0xff << (di + c))", (okm, f"value {show(v)}"), "bits above the chunk (belonging to the next field) are ORed into the destination byte"))
+                        else:
+                            checks.append((f"store operator `{e.op}`", (False, e.op), "unexpected store operator"))
                     for text, (ok, why), wit in checks:
                         res.inst(part=part, path=label, si=si, di=di, n=f"[{lo}, {hi}]", obligation=text, ok=bool(ok))
                         if not ok:
-                            fd = Finding("EC1", C_RT, loops[0].line, "BpCopyBufferBits", f"path `{label}`, si={si}, di={di}, n in [{lo}, {hi}], c = {show(cc)}", f"obligation `{text}` fails ({why})", witness=wit, tag=f"{vname}:path{pi}:{text}")
+                            fd = Finding("EC1", C_RT, getattr(lp.node, "lineno", 0), "BpCopyBufferBits", f"path `{label}`, si={si}, di={di}, n in [{lo}, {hi}], c = {show(cc)}", f"obligation `{text}` fails ({why})", witness=wit, tag=f"{vname}:{text}")
                             fd.part = part
                             if not any(x.tag == fd.tag for x in res.findings):
                                 res.bad(fd)
             if feasible_pairs == 0:
                 res.note(f"{vname}: path `{label}` is infeasible for every (si, di)")
-            # symbolic mask form of partial (OR) stores
-            for tgt, op, val, sg in p.stores:
-                if tgt.k != "index" or op != "|=":
-                    continue
-                w, base = _store_width(tgt)
-                v = lw.expr(val, env)
-                from .rules_d import _and_parts
-
-                parts2 = _and_parts(v)
-                d_is_zero = any(txt(g) == "di==0" and pol for g, pol in p.guards)
-                dpoly = K(0) if d_is_zero else V("di")
-                want_mask = -(K(255) * __import__("sa.normal", fromlist=["pow2"]).pow2(dpoly + cexpr)) - K(1)
-                res.inst(part=part, path=label, store=go_src(tgt), value=show(v))
-                ok = parts2 is not None and len(parts2) == 2 and any(x == want_mask for x in parts2)
-                if not ok:
-                    fd = Finding("EC1", C_RT, tgt.line, "BpCopyBufferBits", go_src(val), f"the partial-byte store on path `{label}` is not masked with ~(0xff << (offset + c)) (got `{show(v)}`)", witness="bits above the chunk (belonging to the next field) are ORed into the destination byte", tag=f"{vname}:path{pi}:mask")
-                    fd.part = part
-                    res.bad(fd)
     return res
+
+
+def _deep_atoms(p: Any) -> list:
+    out = []
+
+    def rec(q: Any) -> None:
+        for m_ in q.terms:
+            for a, _ in m_:
+                out.append(a)
+                for x in a[1:]:
+                    if hasattr(x, "terms"):
+                        rec(x)
+                    elif isinstance(x, tuple):
+                        for y in x:
+                            if hasattr(y, "terms"):
+                                rec(y)
+
+    rec(p)
+    return out
 
 
 # --------------------------------------------------------------------------
